@@ -174,6 +174,12 @@ func runConc(id int, writers, per int, sizes []int, stallAt int) concLine {
 	mc := memnet.NewConn()
 	started := make(chan struct{}, 64)
 	mc.OnWrite = func(k int, b []byte) memnet.WriteOutcome {
+		if stallAt == 0 {
+			// every transport write is slow: whoever waits for the connection starves long enough for
+			// the lock to be handed over the moment it is released (a message sent in several
+			// transport writes with the lock released in between is then torn)
+			time.Sleep(3 * time.Millisecond)
+		}
 		if k == stallAt {
 			// the transport stalls inside this Write while the other writers are started
 			deadline := time.After(40 * time.Millisecond)
@@ -260,7 +266,7 @@ func Write(a Args) error {
 		}
 	}
 	r := rand.New(rand.NewSource(a.Seed))
-	pool := []int{100, 1000, 1100, 4000, 4200, 9000}
+	pool := []int{100, 1000, 1100, 4000, 4200, 9000, 20000}
 	var wg sync.WaitGroup
 	sem := make(chan struct{}, 8)
 	var mu sync.Mutex
@@ -271,7 +277,10 @@ func Write(a Args) error {
 		for k := range sizes {
 			sizes[k] = pool[r.Intn(len(pool))]
 		}
-		stall := 1 + r.Intn(3)
+		stall := r.Intn(5) // 0 (two in five): every transport write is slow
+		if stall == 4 {
+			stall = 0
+		}
 		id++
 		wg.Add(1)
 		sem <- struct{}{}
